@@ -564,8 +564,11 @@ func groupTree(s *simrt.Sim) {
 	}
 	// optionally shut a subgroup down while the submitters are still at work
 	if len(nodes) > 1 && s.Choose(2) == 1 {
-		n := nodes[1+s.Choose(len(nodes)-1)]
+		ni := 1 + s.Choose(len(nodes)-1)
+		n := nodes[ni]
 		d := s.Choose(6)
+		recreate := s.Choose(2) == 1
+		nre := 1 + s.Choose(2)
 		s.Go("subshutdown", func() {
 			for k := 0; k < d; k++ {
 				simrt.Yield()
@@ -579,6 +582,30 @@ func groupTree(s *simrt.Sim) {
 			s.Logf("Shutdown of group %s", n.name)
 			n.g.Shutdown()
 			s.Logf("Shutdown of group %s returned", n.name)
+			if !recreate {
+				return
+			}
+			// a group of the same name is created again under the same parent once the old one is shut down; its
+			// pools count for every ancestor like any other
+			for _, pi := range n.pools {
+				pools[pi].ShutdownComplete.Wait()
+			}
+			s.Probe("subgroup-recreated-after-shutdown")
+			ng := nodes[ni-1].g.CreateGroup(n.name)
+			pi := mk(ng, n.name+"again")
+			rn := &gnode{g: ng, name: n.name + "'", pools: []int{pi}}
+			for _, anc := range nodes[:ni] {
+				anc.pools = append(anc.pools, pi)
+			}
+			nodes = append(nodes, rn)
+			for k := 0; k < nre; k++ {
+				worlds[pi].submit(pools[pi], fmt.Sprintf("re.%d", k), s.Choose(3), 0)
+			}
+			if s.Choose(2) == 1 {
+				inv := s.Tick()
+				ng.WaitChildren()
+				waits = append(waits, &waitRec{worlds: below(rn), name: ":" + rn.name, inv: inv, ret: s.Tick()})
+			}
 		})
 	}
 	left := s.Quiesce()
